@@ -129,9 +129,9 @@ func worker(jobPath string) {
 			kit.Must(fmt.Errorf("unknown op kind %q", op.Kind))
 		}
 	}
-	close(done)
 	say("DONE")
-	_ = t.Close()
+	_ = t.Close() // Close takes the writer's locks: still under the watchdog
+	close(done)
 }
 
 // verify reopens the tree after the worker ended (or was killed) and reads everything back:
